@@ -83,5 +83,4 @@ theorem scan_min (c0 : Int) (rest : List Int) :
       have := (List.of_mem_zip this).2
       rw [e3]; exact List.mem_cons_of_mem _ this
 
-#print axioms scan_min
 end P.Argmin
